@@ -411,11 +411,18 @@ def tcp_threads_case(ctx, rng: random.Random, seed: int) -> str | None:
         ths = [threading.Thread(target=sender, args=(i,), daemon=True) for i in range(N)]
         for t in ths:
             t.start()
+        deadline = time.monotonic() + 60
         for t in ths:
-            t.join(60)
+            t.join(max(0.1, deadline - time.monotonic()))
     stuck = [t for t in ths if t.is_alive()]
     stop.set()
-    client.close()
+    if not _close_bounded(client):
+        s.close()
+        if stuck:
+            ctx.inconclusive_because(f"{len(stuck)} sender threads still running after the 60 s watchdog and close() is blocked behind them")
+            return None
+        errors = [r for *_x, r in results if r != "ok"]
+        return f"client.close() did not return within 20 s after every sender thread had finished ({len(errors)} sends failed, first: {errors[:1]}): the send lock is still held by a call that has returned"
     rt.join(60)
     reader_stuck = rt.is_alive()
     s.close()
@@ -465,10 +472,13 @@ def udp_threads_case(ctx, rng: random.Random, seed: int) -> str | None:
         ths = [threading.Thread(target=sender, args=(i,), daemon=True) for i in range(N)]
         for t in ths:
             t.start()
+        deadline = time.monotonic() + 60
         for t in ths:
-            t.join(60)
+            t.join(max(0.1, deadline - time.monotonic()))
     stuck = [t for t in ths if t.is_alive()]
-    client.close()
+    if not _close_bounded(client) and not stuck:
+        b.close()
+        return "UDP client.close() did not return within 20 s after every sender thread had finished: the send lock is still held by a call that has returned"
     ctx.count("thread_switches_injected", inj.switches)
     if stuck:
         b.close()
@@ -586,7 +596,9 @@ def tcp_directed_case(ctx, point: tuple[str, int], skip: int = 0) -> str | None:
     stuck = va.is_alive() or any(t.is_alive() for t in other)
     fallback.cancel()
     start_reading.set()
-    client.close()
+    if not _close_bounded(client) and not stuck:
+        s.close()
+        return f"client.close() did not return within 20 s after every sender had finished (one preemption before {point}): the send lock is still held by a call that has returned"
     rt.join(60)
     s.close()
     if rt.is_alive():
@@ -609,6 +621,14 @@ def tcp_directed_case(ctx, point: tuple[str, int], skip: int = 0) -> str | None:
         return why
     ctx.count("packets_checked", len(wire_packets))
     return None
+
+
+def _close_bounded(client, seconds: float = 20.0) -> bool:
+    """close() takes the client's send lock: run it aside so that a lock left held by a returned call is a verdict, not a hung worker"""
+    t = threading.Thread(target=client.close, daemon=True)
+    t.start()
+    t.join(seconds)
+    return not t.is_alive()
 
 
 def tcp_lock_timeout_case(ctx, rng: random.Random) -> str | None:
@@ -696,7 +716,13 @@ def tcp_lock_timeout_case(ctx, rng: random.Random) -> str | None:
     for qt in query_threads:
         qt.join(10)  # a query still waiting behind the senders must have finished before the harness closes the client
     stuck = [t for t in (ta, tb, tc) if t.is_alive()]
-    client.close()
+    closer = threading.Thread(target=client.close, daemon=True)
+    closer.start()
+    closer.join(30)
+    if closer.is_alive() and not stuck:
+        # every sender has returned and close() cannot get the send lock: somebody left it held
+        s.close()
+        return f"client.close() did not return within 30 s after all senders had finished (A={results.get('A')}, B={results.get('B')}, C={results.get('C')}): the send lock is still held by a call that has returned"
     rt.join(60)
     s.close()
     if rt.is_alive() or stuck:
